@@ -480,6 +480,36 @@ def protocol_cases():
             if not p._authenticated or t.disconnecting or getattr(p, 'uniqueName', None) is None:
                 return 'pipelined handshake + %d bytes of messages (%s): authenticated=%r closed=%r named=%r, replies %r' % (
                     len(hello) + len(big), how, p._authenticated, t.disconnecting, getattr(p, 'uniqueName', None), t.value()[:60])
+        # EXTERNAL with the peer credentials the bus reads from the socket (SO_PEERCRED) when the first byte arrives - however
+        # the first byte and the lines are cut into reads
+        import struct as _st, binascii, os
+
+        class CredSocket:
+            def getsockopt(self, level, opt, size):
+                return _st.pack('3i', os.getpid(), os.getuid(), os.getgid())
+
+        class CredTransport(StringTransport):
+            socket = CredSocket()
+        ext = b'\0AUTH EXTERNAL ' + binascii.hexlify(str(os.getuid()).encode('ascii')) + b'\r\nDATA\r\nBEGIN\r\n'
+        protocol._is_linux = True
+        try:
+            for how, cuts in (('one read', []), ('NUL alone, then the rest', [1]), ('NUL alone, then one line per read', [1, ext.index(b'\r\n') + 2]),
+                              ('one byte per read', list(range(1, len(ext))))):
+                p = bus.BusProtocol()
+                p.factory = F
+                t = CredTransport()
+                p.makeConnection(t)
+                prev = 0
+                try:
+                    for c in cuts + [len(ext)]:
+                        p.dataReceived(ext[prev:c])
+                        prev = c
+                except Exception as e:
+                    return 'EXTERNAL client with peer credentials (%s) raised %s: %s' % (how, type(e).__name__, e)
+                if not p._authenticated or t.disconnecting:
+                    return 'an EXTERNAL client whose uid matches the peer credentials (%s) was not accepted: replies %r, closed=%r' % (how, t.value(), t.disconnecting)
+        finally:
+            protocol._is_linux = False
         # acceptable credentials are accepted: ANONYMOUS, and EXTERNAL with peer credentials
         for lines, creds in (([b'AUTH ANONYMOUS', b'BEGIN'], None), ([b'AUTH EXTERNAL 30', b'DATA', b'BEGIN'], (1, 0, 0))):
             p = bus.BusProtocol()
